@@ -1542,7 +1542,7 @@ Section Try.
     intros HI Hnlp Hne. pose proof Hnlp as [[Hc _] _].
     destruct (guarded_spec (a_remove base) w sub [sub] HI Hnlp (incl_self_cands sub Hc))
       as (r & w' & w2 & Hrun & Hnh & HI2 & Hext & Hi & _ & Hcase).
-    { intros w0 Hq0 Hwf0 HV0. apply (law_user_remove _ _ _ _ _ _ _ Lb w0 sub Hq0 Hwf0).
+    { intros w0 Hq0 Hwf0 HV0. apply (law_user_remove _ _ _ _ _ _ _ Lb w0 sub Hq0 Hwf0); [| exact Hne].
       rewrite HV0. exact Hnlp. }
     exists r, w'. split; [exact Hrun |].
     pose proof Hext as (HVb2 & Hm & Hd).
@@ -1880,7 +1880,7 @@ Section Try.
     - (* Remove *)
       apply (finish_name _ n); [left; reflexivity |].
       apply (unit_op_spec (fun rn => a_remove base rn) w n [n] HI Hn (incl_self_cands n Hc)).
-      intros w2 Hq2 Hwf2 HVb2. apply (law_user_remove _ _ _ _ _ _ _ Lb w2 n Hq2 Hwf2).
+      intros w2 Hq2 Hwf2 HVb2. apply (law_user_remove _ _ _ _ _ _ _ Lb w2 n Hq2 Hwf2); [| exact Hrm].
       rewrite HVb2. exact Hn.
     - (* RemoveAll *)
       cbn [step].
